@@ -122,6 +122,9 @@ class Lib:
     def class_attr(self, ip, st, cls, name):
         if name == "__name__":
             return cls.name
+        full = "%s.%s" % (cls.qualname, name)
+        if full in EXTERNALS:               # class/static method of an external class with an assumed contract
+            return Builtin(full, EXTERNALS[full])
         return None
 
     def class_setattr(self, ip, st, cls, name, v):
@@ -581,6 +584,9 @@ def _list(ip, st, args, kwargs):
         return
     if isinstance(v, SymObjSeq):
         yield st, v
+        return
+    if isinstance(v, Opaque) and "ops" in v.attrs and v.tag == "cscript":
+        yield st, v.attrs["ops"]          # A-BTCLIB: iterating a script yields its operations
         return
     raise Unsupported("list(%r)" % (v,))
 
